@@ -28,7 +28,7 @@ class C02(Prop):
     RULE = ("cases: documents drawn from a recursive grammar (all scalar kinds, literals from a boundary pool and a "
             "literal grammar, strings over ASCII/control/2-,3-,4-byte code points, duplicate keys, chains up to "
             "CJSON_NESTING_LIMIT) rendered as RFC 8259 text with drawn whitespace, escape spelling, hex case, BOM and "
-            "framing, then parsed through 9 entry-point/flag/terminator variants; plus an EXHAUSTIVE sweep in C of every BMP \\uXXXX escape "
+            "framing, then parsed through 9 entry-point/flag/terminator variants (each case a second time in its compact spelling, without a single blank); every document of up to two members over a few one-byte values and names (incl. the empty name), spelt compactly; plus an EXHAUSTIVE sweep in C of every BMP \\uXXXX escape "
             "(both hex cases, as value and as key) and of surrogate pairs (all 2^20 in the thorough tier; row boundaries and a 1/16 sample in "
             "the quick tier) against an independent UTF-8 encoder; non-trivial = the text contains at "
             "least one of: escape, non-ASCII byte, fraction/exponent, depth >= 2, duplicate key, BOM; distinct = by "
